@@ -225,6 +225,8 @@ class Fn:
                 return ("bool", f"{base[1]}.isLost")
             if a == "length":
                 return ("int", f"{base[1]}.length")
+            if a == "reverse":
+                return ("bool", f"(fspReverse {base[1]})")
             if a == "start":
                 return ("int", f"(fspStart {base[1]})")
             if a == "end":
@@ -475,7 +477,16 @@ class Fn:
             pl = self.as_int(self.expr(kws["parent_length"], env), node)
             if locs[0] != "pairs":
                 self.fail(node, "locations= must be a list of pairs")
-            return ("m", f"FMap.fromLocations {locs[1]} {paren(pl)}", "fmrec")   # S6
+            return ("m", f"FMap.fromLocations {paren(locs[1])} {paren(pl)}", "fmrec")   # S6
+        if isinstance(f, ast.Name) and f.id == "_spans_from_locations":
+            kws = {k.arg: k.value for k in node.keywords}
+            if node.args or set(kws) != {"locations", "parent_length"}:
+                self.fail(node, "_spans_from_locations keywords")
+            locs = self.expr(kws["locations"], env)
+            pl = self.as_int(self.expr(kws["parent_length"], env), node)
+            if locs[0] != "pairs":
+                self.fail(node, "locations= must be a list of pairs")
+            return ("m", f"FMap.spansFromLocations {paren(locs[1])} {paren(pl)}", "fsps")   # S6
         if isinstance(f, ast.Name) and f.id == "isinstance" and len(node.args) == 2 and src(node.args[1]) == "int":
             v = self.expr(node.args[0], env)      # S9: positions are python ints (the array form is not translated)
             if v[0] == "int":
@@ -650,19 +661,37 @@ class Fn:
         if isinstance(s, ast.Return) and self.loops:
             self.fail(s, "return inside a loop")
         if (isinstance(s, ast.Expr) and isinstance(s.value, ast.Call) and isinstance(s.value.func, ast.Attribute)
-                and s.value.func.attr == "append" and env.get(src(s.value.func.value), ("?",))[0] in ("pairs", "ints")
+                and s.value.func.attr == "append" and env.get(src(s.value.func.value), ("?",))[0] in ("pairs", "ints", "quads", "fsps")
                 and len(s.value.args) == 1 and not s.value.keywords):
             n = src(s.value.func.value)
+            kind = env[n][0]
             v = self.expr(s.value.args[0], env)
             env2 = dict(env)
-            if env[n][0] == "pairs":
-                if v[0] != "tuple" or len(v[1]) != 2 or any(x[0] != "int" for x in v[1]):
-                    self.fail(s, "append of something other than a pair of ints")
+            env2[n] = (kind, lname(n))
+            if kind in ("pairs", "quads"):
+                if v[0] != "tuple" or len(v[1]) != (2 if kind == "pairs" else 4) or any(x[0] != "int" for x in v[1]):
+                    self.fail(s, f"append of something other than a tuple of ints to a list of {kind}")
                 item = self.tuple_text(v, s)
+            elif kind == "fsps":
+                if v[0] == "m" and v[2] == "fsp":
+                    if not self.monadic:
+                        self.fail(s, "a constructor that may raise in a function declared pure")
+                    tn = self.fresh("sp")
+                    return (f"{pad}match {v[1]} with\n{pad}| .error e => .error e\n{pad}| .ok {tn} =>\n"
+                            f"{pad}  let {lname(n)} := {paren(env[n][1])} ++ [{tn}]\n{self.block(rest, env2, ind + 1)}")
+                if v[0] != "fsp":
+                    self.fail(s, "append of something other than a span")
+                item = v[1]
             else:
                 item = self.as_int(v, s)
-            env2[n] = (env[n][0], lname(n))
             return f"{pad}let {lname(n)} := {paren(env[n][1])} ++ [{item}]\n{self.block(rest, env2, ind)}"
+        if (isinstance(s, ast.Expr) and isinstance(s.value, ast.Call) and isinstance(s.value.func, ast.Attribute)
+                and s.value.func.attr == "sort" and env.get(src(s.value.func.value), ("?",))[0] == "quads"
+                and not s.value.args and not s.value.keywords):
+            n = src(s.value.func.value)        # S10: list.sort() of 4-tuples of ints = lexicographic insertion sort
+            env2 = dict(env)
+            env2[n] = ("quads", lname(n))
+            return f"{pad}let {lname(n)} := sortQ {paren(env[n][1])}\n{self.block(rest, env2, ind)}"
         if isinstance(s, ast.Return):
             if s.value is None:
                 self.fail(s, "bare return")
@@ -765,7 +794,7 @@ class Fn:
                 env2[t.id] = (kind, name)
                 return (f"{pad}match {v[1]} with\n{pad}| .error e => .error e\n{pad}| .ok {name} =>\n"
                         f"{self.block(rest, env2, ind + 1)}")
-            if v[0] in ("int", "fsp", "fsps", "pairs"):
+            if v[0] in ("int", "fsp", "fsps", "pairs", "quads", "ints"):
                 env2[t.id] = (v[0], name)
                 return f"{pad}let {name} := {v[1]}\n{self.block(rest, env2, ind)}"
             if v[0] in ("bool", "prop"):
@@ -902,7 +931,7 @@ class Fn:
         return out
 
     KIND_TY = {"int": "Int", "bool": "Bool", "optint": "Option Int", "pairs": "List (Int × Int)", "fsps": "List FMap.FSp",
-               "ints": "List Int"}
+               "ints": "List Int", "quads": "List (Int × Int × Int × Int)"}
 
     def list_kind(self, target, node):
         """kind of a list that starts as `[]`: read off the `.append` calls on it in this function"""
@@ -910,8 +939,14 @@ class Fn:
         for nd in ast.walk(self.f):
             if (isinstance(nd, ast.Call) and isinstance(nd.func, ast.Attribute) and nd.func.attr == "append"
                     and src(nd.func.value) == target and len(nd.args) == 1):
-                kinds.add("pairs" if isinstance(nd.args[0], ast.Tuple) else "ints")
-        if len(kinds) != 1:
+                a = nd.args[0]
+                if isinstance(a, ast.Tuple):
+                    kinds.add({2: "pairs", 4: "quads"}.get(len(a.elts), "?"))
+                elif isinstance(a, ast.Call) and isinstance(a.func, ast.Name) and a.func.id in ("Span", "LostSpan", "_LostSpan"):
+                    kinds.add("fsps")
+                else:
+                    kinds.add("ints")
+        if len(kinds) != 1 or "?" in kinds:
             self.fail(node, f"cannot tell what the list {target} holds")
         return kinds.pop()
 
@@ -958,6 +993,12 @@ class Fn:
             for n in targets:
                 env_body[n] = ("int", ln(n))
             elem_ty = "Int × Int"
+        elif it[0] == "quads" and isinstance(s.target, ast.Tuple) and len(s.target.elts) == 4 and all(isinstance(e, ast.Name) for e in s.target.elts):
+            targets = [e.id for e in s.target.elts]
+            pat = "(" + ", ".join(ln(n) for n in targets) + ")"
+            for n in targets:
+                env_body[n] = ("int", ln(n))
+            elem_ty = "Int × Int × Int × Int"
         elif it[0] == "fsps" and isinstance(s.target, ast.Name):
             targets = [s.target.id]
             pat = ln(s.target.id)
@@ -1171,6 +1212,13 @@ def fspEnd : FMap.FSp → Int
   | .span _ e _ => e
   | .lost _ => 0
 
+def fspReverse : FMap.FSp → Bool
+  | .span _ _ r => r
+  | .lost _ => false
+
+/-- `list.sort()` of a list of 4-tuples of ints (S10): lexicographic insertion sort -/
+def sortQ (xs : List (Int × Int × Int × Int)) : List (Int × Int × Int × Int) := xs.foldr FMap.insertQ []
+
 '''
 
 
@@ -1286,6 +1334,9 @@ def gen(path):
             raise TranslationError(f"FeatureMap.{fld}: a dataclass field with default None is expected")
         fn.initial["self." + fld] = ("none",)
     emit(fn)
+    emit(Fn(u, u.method("FeatureMap", "gaps"), "fmGaps", [("self", M)], "fm", True, owner="FeatureMap"))
+    emit(Fn(u, u.method("FeatureMap", "nongap"), "fmNongap", [("self", M)], "fsps", True, owner="FeatureMap"))
+    emit(Fn(u, u.method("FeatureMap", "inverse"), "fmInverse", [("self", M)], "fm", True, owner="FeatureMap"))
     for prop in ("start", "end"):
         emit(Fn(u, u.method("FeatureMap", prop), "fm" + prop.capitalize(), [("self", M)], "int", False, owner="FeatureMap"))
     emit(Fn(u, u.method("FeatureMap", "absolute_position"), "fmAbsolutePosition", [("self", M), ("rel_pos", ("int", "rel_pos"))], "int", True, owner="FeatureMap"))
